@@ -46,9 +46,9 @@ def known_c06(delim, lt, flowsel, entry) -> bool:
     return False
 
 
-def conf(lt: int, delim: bool, fs: int) -> bool:
+def conf(lt: int, delim: bool, fs: int, ns: bool) -> bool:
     """
-    pre: 0 <= lt < 8 and fs >= 1
+    pre: 0 <= lt < 8 and fs >= 1 and (not ns or P.get("ns_sym", False))
     post: _
     """
     integ, entry, phys, K = P["integ"], P["entry"], P["phys"], P["K"]
@@ -60,13 +60,13 @@ def conf(lt: int, delim: bool, fs: int) -> bool:
         stream = None
         try:
             flow = make_flow(flowsel, ltv, fs)
-            opts = pj.make_options(phys, frame_size=fs, delimited=bool(delim), logical=ltv, flow=flow,
+            opts = pj.make_options(phys, frame_size=fs, delimited=bool(delim), logical=ltv, flow=flow, ns=bool(ns),
                                    generalized=integ == "generic", rdf_star=integ == "generic")
             if integ == "generic":
                 if entry == "stream_frames":
                     from pyjelly.integrations.generic import serialize as gs
                     stream = pj.gen_stream(phys, opts)
-                    data = pj.write_frames(gs.stream_frames(stream, pj.gen_sink(items) if P.get("sink") else (pj.terms.item_to_generic(i) for i in items)), bool(delim))
+                    data = pj.write_frames(gs.stream_frames(stream, pj.gen_sink(items, [("ex", "http://a/")]) if P.get("sink") else (pj.terms.item_to_generic(i) for i in items)), bool(delim))
                 else:
                     data = pj.gen_serialize(items, phys, opts, entry=entry)
             else:
@@ -78,7 +78,7 @@ def conf(lt: int, delim: bool, fs: int) -> bool:
                     data = pj.rdf_serialize(items, phys, opts, entry=entry)
         except Exception:  # noqa: BLE001
             # the configuration was refused: that is always acceptable
-            return fin(M, not P.get("twin"), lt=lt, delim=delim, fs=fs)
+            return fin(M, not P.get("twin"), lt=lt, delim=delim, fs=fs, ns=ns)
         ok = True
         if stream is not None and len(stream.flow) != 0:
             ok = False
@@ -89,6 +89,7 @@ def conf(lt: int, delim: bool, fs: int) -> bool:
                     got = [norm_item(i) for i in pj.gen_parse(data)]
                 else:
                     got = [norm_item(i) for i in pj.rdf_parse(data)]
+                got = [i for i in got if i[0] != "NS"]   # declarations are C14's subject; here: no statement may be lost
             except Exception:  # noqa: BLE001
                 got = None
             proj = P.get("projection")
@@ -106,4 +107,4 @@ def conf(lt: int, delim: bool, fs: int) -> bool:
             ok = False
     except Exception:  # noqa: BLE001
         ok = False
-    return fin(M, ok, lt=lt, delim=delim, fs=fs)
+    return fin(M, ok, lt=lt, delim=delim, fs=fs, ns=ns)
